@@ -10,6 +10,8 @@ equivalent to the per-channel calls, in order).
 arg   = ["c", "p/q"] | ["c", "p/q", "i"] (the same number written as a Python int) | ["c", "0", "z"] (-0.0)
       | ["v", i, k] (channel k of the value of instruction i) | ["p", "ir"|"kr", j]
 instr = ["U", name, rate, [arg...]] | ["un", pyname, a] | ["bin", pyname, a, b]
+      | ["un", pyname, a, "func"] | ["bin", pyname, a, b, "func"]   (function-call form sc3.base.builtins.f(a[, b]),
+        the unit generator on either side; without the tag: infix / reflected infix where Python has syntax, else method)
       | ["madd", a, b, c] | ["sum", [arg...]] | ["sum3", a, b, c] | ["sum4", a, b, c, d]
       | ["out", rate, bus, [arg...]] | ["raise", "exc"|"base"]
 """
@@ -146,7 +148,12 @@ def mce_call(group, arg):
             raise Unsupported('mce group without differing arguments')
         left = ugn.ChannelList(a) if la else a
         right = ugn.ChannelList(b) if lb else b
-        if name in INFIX:
+        if len(group[0]) > 4 and group[0][4] == 'func':
+            import sc3.base.builtins as bi
+            if not hasattr(bi, name) or any(len(g) <= 4 or g[4] != 'func' for g in group):
+                raise Unsupported('function form in a multichannel group')
+            r = getattr(bi, name)(left, right)
+        elif name in INFIX:
             r = INFIX[name](left, right)
         else:
             if is_num(left):
@@ -160,7 +167,13 @@ def mce_call(group, arg):
         if not la:
             raise Unsupported('mce group without differing arguments')
         left = ugn.ChannelList(a)
-        r = UN_INFIX[name](left) if name in UN_INFIX else getattr(left, name)()
+        if len(group[0]) > 3 and group[0][3] == 'func':
+            import sc3.base.builtins as bi
+            if not hasattr(bi, name) or any(len(g) <= 3 or g[3] != 'func' for g in group):
+                raise Unsupported('function form in a multichannel group')
+            r = getattr(bi, name)(left)
+        else:
+            r = UN_INFIX[name](left) if name in UN_INFIX else getattr(left, name)()
     elif k == 'U':
         name, rate = group[0][1], group[0][2]
         if any(g[1] != name or g[2] != rate for g in group):
@@ -235,6 +248,18 @@ def make_func(prog):
                     meth = 'new'
                 r = getattr(c, meth)(*a)
                 vals.append(r)
+            elif k == 'un' and len(ins_) > 3 and ins_[3] == 'func':
+                import sc3.base.builtins as bi
+                a = arg(ins_[2])
+                if is_num(a) or not hasattr(bi, ins_[1]):
+                    raise Unsupported('function form of a unary op')
+                vals.append(getattr(bi, ins_[1])(a))
+            elif k == 'bin' and len(ins_) > 4 and ins_[4] == 'func':
+                import sc3.base.builtins as bi
+                a, b = arg(ins_[2]), arg(ins_[3])
+                if (is_num(a) and is_num(b)) or not hasattr(bi, ins_[1]):
+                    raise Unsupported('function form of a binary op')
+                vals.append(getattr(bi, ins_[1])(a, b))
             elif k == 'un':
                 a = arg(ins_[2])
                 name = ins_[1]
